@@ -11,16 +11,17 @@ correspondence: a REAL `Executor<TestEffect>` (harness qv_select; no Worker/Envi
 impl oracles  : on the REAL outcomes alone (no model): select_spec (python re-implementation AND the
                 extracted Coq spec) evaluated on the real state before every completing / parking
                 entry; mailbox conservation; timeout-not-early; verdict-payload independence (twin
-                runs); a process killed by the failure of a process it no longer awaits (F45)."""
+                runs); a process killed by the failure of a process it no longer awaits (F45); the premises
+                of the protocol cone (park_honest / time_honest / await_honest) on every real slice."""
 import hashlib, json, os, random
 from vplib import sexpr
 from vplib.common import VERIF
 
 MANIFEST = dict(
     category="proof",
-    text="Coq theorems (15, all closed under the global context) about a re-entrant model of the executor's select machine (initialize_select, handle_select_continuation, ensure_select_start_time, process_select_sources, handle_select_timeout/process/receive, scan_mailbox_for_message, call_receive_function, handle_receive_result, complete_select, check_expired_timeouts, the notify_message/notify_result/mark_active wake-ups, the failure paths of Worker::notify_result and Executor::step; a filter is an oracle consulted through the same two-entry protocol as the code). For EVERY history of entries and arrivals (messages, results, failures, wake-ups; arbitrary clock values) and every filter oracle: (1) select_refines_spec: an entry that completes the select completes with select_spec evaluated on the state AT THAT ENTRY - the first source in written order that is ready: a delivered awaited result, the earliest mailbox message of a receive source's type that its filter accepts, nil for a timeout whose duration has elapsed since the select started waiting - and the mailbox afterwards is that entry's mailbox minus exactly the taken message, order preserved (untaken_preserved_in_order); (2) an entry parks the process only when select_spec says Wait; it fails the process only when select_spec says Fail, and a failing filter is only ever called at an entry whose select_spec is Fail; (3) cursor_skips_only_rejected: every message before a cursor is type-incompatible or rejected by the filter; (4) verdict_is_only_a_verdict: runs and spec are invariant under changing the non-nil values filters return; (5) timeout_not_early (monotone clock; durations outside i64 are clamped to 2^63-1 ms as in the code); (6) the machine never reaches an index panic. The failure of an awaited process is an asynchronous kill in the code (it pre-empts even a ready higher-priority source) and a failing filter cannot be pre-empted by a source that became ready while it ran: both are stated explicitly in props/C05.v, not as priority. Await protocol of the environment (pending_awaits): await_protocol_delivers_all proved for the merging code now in /repo (F8 fixed), refutation kept for the replacing code. F45 (a completed select keeps awaiting; a later failure kills): refuted for the code as it stands, completed_select_survives proved for the proposed repair. The model is tied to the code by differential execution against a real Executor after every operation of generated histories; select_spec (python reading AND the extracted Coq function) is additionally evaluated on the real pre-state of every completing/parking entry.",
+    text="Coq theorems (25, all closed under the global context) about a re-entrant model of the executor's select machine (initialize_select, handle_select_continuation, ensure_select_start_time, process_select_sources, handle_select_timeout/process/receive, scan_mailbox_for_message, call_receive_function, handle_receive_result, complete_select, check_expired_timeouts, the notify_message/notify_result/mark_active wake-ups, the failure paths of Worker::notify_result and Executor::step, the Action a slice returns; a filter is an oracle consulted through the same two-entry protocol as the code). For EVERY history of entries and arrivals (messages, results, failures, wake-ups; arbitrary clock values) and every filter oracle: (1) select_refines_spec: an entry that completes the select completes with select_spec evaluated on the state AT THAT ENTRY - the first source in written order that is ready: a delivered awaited result, the earliest mailbox message of a receive source's type that its filter accepts, nil for a timeout whose duration has elapsed since the select started waiting - and the mailbox afterwards is that entry's mailbox minus exactly the taken message, order preserved (untaken_preserved_in_order); (2) an entry parks the process only when select_spec says Wait; it fails the process only when select_spec says Fail, and a failing filter is only ever called at an entry whose select_spec is Fail; (3) cursor_skips_only_rejected; (4) verdict_is_only_a_verdict (runs and spec); (5) timeout_not_early (monotone clock; durations outside i64 are clamped to 2^63-1 ms as in the code); (6) the machine never reaches an index panic; (7) the premises the protocol cone (sys/*.v, C04/C15) assumes of a VM time slice, proved of the machine: parks_only_after_full_scan / never_parks_with_acceptable_message (park_honest: a slice parks only with every receive cursor at the end of the mailbox), await_slice_has_not_started (the slice returning Action::Await has its start time unset and parks), never_parks_with_due_timeout / parked_not_expired_at_same_clock (time_honest, for the slice that parks; the unconditional reading is shown false by an Example and on the real code), dead_process_runs_no_entry (await_honest a), and for the code since 09625d4: awaiting_keys_subset_of_current_sources (invariant), complete_select_clears_process_sources, completed_select_awaits_nothing, await_slice_leaves_only_its_targets (await_honest b). The failure of an awaited process is an asynchronous kill in the code (it pre-empts even a ready higher-priority source) and a failing filter cannot be pre-empted by a source that became ready while it ran: both are stated explicitly in props/C05.v, not as priority. Await protocol of the environment (pending_awaits): await_protocol_delivers_all proved for the merging code in /repo (F8 fixed, 5c787ac), refutation kept for the replacing code. F45 (a completed select kept awaiting; a later failure killed the process; fixed, 09625d4): completed_select_survives proved for the repaired code, refutation kept for the code before it. The model is tied to the code by differential execution against a real Executor after every operation of generated histories (select state, cursors, start time, mailbox, awaiting map, scheduling flags, next_timeout_ms, result, and the Action returned by each slice); select_spec (python reading AND the extracted Coq function) and every protocol-cone premise are additionally evaluated on the REAL executor's states, with no model involved.",
     design_ref="§5 C05",
-    note="Trusted: Coq kernel, extraction, OCaml driver, Rust harness qv_select (plays the worker through the executor's public API; the failure of an awaited process is applied as worker.rs does; --env drives the real Environment with fake worker handles), generators. Not modelled: the frame/instruction check against nested selects, refcounts (C06), the operand stack beyond the pushed value, the rest of the program around the select. Readiness of a process source means 'its result has been delivered to the awaiter' (awaiting[p] = Some): how and when results get delivered is the await protocol (F8 here; F72 under C03/C04). F45 is a known finding until its repair (hooks/fix_F45.patch) is committed: the model has a switch (fix45) and the check probes which behaviour the real code has.",
+    note="Trusted: Coq kernel, extraction, OCaml driver, Rust harness qv_select (plays the worker through the executor's public API; the failure of an awaited process is applied as worker.rs does; --env drives the real Environment with fake worker handles), generators. Not modelled: the frame/instruction check against nested selects, refcounts (C06), the operand stack beyond the pushed value, the rest of the program around the select (one select per run: 'a process that finished normally is never queued again' and 'the next select starts from the awaiting map the previous one left' are the glue to multi-select programs; the latter is completed_select_awaits_nothing). Readiness of a process source means 'its result has been delivered to the awaiter' (awaiting[p] = Some): how and when results get delivered is the await protocol (F8 here; F72 under C03/C04). The model keeps a switch fix45 (code before/after 09625d4) and the check probes which behaviour the real code has; the protocol-cone premise theorems about `awaiting` are for fix45 = true. sys's time_honest is stated unconditionally there; it is proved (and true of the real code) only for the slice that parks, which is all its use needs - see the header of props/C05.v.",
     technique="Coq proof (refinement of a spec by a re-entrant machine via an invariant over all histories) + model/code correspondence by differential execution + spec-as-oracle on real outcomes + metamorphic twin runs + exhaustive small scope (thorough)",
 )
 
@@ -251,11 +252,13 @@ def parse_model_dump(d):
     err = field(d, "err")[1]
     val = field(d, "val")[1]
     nt = field(d, "nt")[1]
+    act = field(d, "act")
     return dict(q=int(field(d, "q")[1]), s=int(field(d, "s")[1]), sel=sel,
                 mb=tuple((int(m[0]), int(m[1])) for m in field(d, "mb")[1:]),
                 aw=tuple(sorted((int(k), None if v == "-" else parse_model_value(v)) for k, v in field(d, "aw")[1:])),
                 err=None if err == "-" else (err[0], err[1] if err[0] == "e" else int(err[1])),
-                val=None if val == "-" else parse_model_value(val), nt=None if nt == "-" else int(nt))
+                val=None if val == "-" else parse_model_value(val), nt=None if nt == "-" else int(nt),
+                act=None if act is None or act[1:] == ["-"] else tuple(int(x) for x in act[1:]))
 
 
 def split_records(parsed):
@@ -440,7 +443,10 @@ class Runner:
                            arrival_after_parking=0, arrival_before_select=0, spec_evals_on_real=0,
                            spec_evals_complete=0, spec_evals_wait=0, spec_evals_fail=0, model_states_compared=0,
                            local_cases=0, drained=0, twins=0, refcount_violations_seen=0, failures_delivered=0,
-                           timeouts_checked_not_early=0, clock_back_steps=0, multi_entry_steps=0)
+                           timeouts_checked_not_early=0, clock_back_steps=0, multi_entry_steps=0,
+                           actions_compared=0, await_actions=0, premise_park_full_scan=0, premise_park_no_due_timeout=0,
+                           premise_await_start_unset=0, premise_await_keys_in_targets=0,
+                           premise_no_slice_for_dead_process=0, premise_completion_clears_sources=0)
         self.reported = 0
 
     def bump(self, h, k):
@@ -567,6 +573,7 @@ class Runner:
             d = parse_real_dump(field(rec, "d"))
             op = ops[opi]
             evs = []
+            act_at = real_act = None
             if name == "to-select":
                 if field(rec, "reached")[1] != "1":
                     a["fatal"] = "process never reached its select"
@@ -605,6 +612,17 @@ class Runner:
                     st["clock_back"] += 1
                     a["clock_went_back"] = True
                 last_now = now
+                ra = field(rec, "act")[1]
+                real_act = None
+                if isinstance(ra, list) and ra[0] == "await" and ra[1] == "0":
+                    real_act = tuple(int(x) - 100 for x in ra[2:])
+                act_at = None
+                # sys premise await_honest (a), on the real executor: no instruction is executed for a
+                # process whose result is already set
+                if prev is not None and (prev["err"] is not None or prev["ok"] is not None):
+                    self.counts["premise_no_slice_for_dead_process"] += 1
+                    if ran == "0" and int(field(rec, "n")[1]) > 0:
+                        a["oracle_failures"].append(dict(oracle="premise:no-slice-for-a-finished-process", record=_jsonable(rec[:9])))
                 if ran not in ("0", "-"):
                     # another process ran: only this step's check_expired_timeouts concerns pid 0
                     evs.append("(tick %d)" % now)
@@ -631,6 +649,9 @@ class Runner:
                         elif new_err:
                             n_steps = 1               # the filter failed inside its frame
                         evs += ["(step %d)" % now] * n_steps
+                        if n_steps:
+                            act_at = nev + len(evs) - 1     # index of the last entry fed to the model
+                        self.real_premises(case, a, prev, d, now, entries, real_act, val)
                         st["entries"] += entries
                         if entries > 1:
                             st["multi_entry"] += 1
@@ -654,7 +675,10 @@ class Runner:
                 a["final"] = d
             nev += len(evs)
             a["events"] += evs
-            a["checkpoints"].append(dict(nev=nev, real=d, completed=completed, name=name, opi=opi))
+            cp = dict(nev=nev, real=d, completed=completed, name=name, opi=opi)
+            if name == "step" and (act_at is not None or real_act is not None):
+                cp["act_at"], cp["real_act"] = act_at, real_act
+            a["checkpoints"].append(cp)
             prev = d
         a["mb0"] = mb0 if mb0 is not None else ()
         a["delivered"] = delivered
@@ -663,6 +687,44 @@ class Runner:
         a["final"] = a.get("final", prev)
         self.real_final_oracles(case, a)
         return a
+
+    def real_premises(self, case, a, prev, d, now, entries, real_act, val):
+        """The premises the protocol cone (sys/ProtoParked.v park_honest, time_honest; sys/ProtoAwait.v
+        await_honest) assumes of a time slice, evaluated on the REAL executor's state after a slice of
+        the process under test (no model involved)."""
+        c = self.counts
+        parked = d["s"] == 1 and d["q"] == 0 and d["err"] is None and entries >= 1 and d["sel"] is not None
+        if real_act is not None:
+            c["await_actions"] += 1
+            # park_honest, 2nd clause: the slice that returns Await has not started evaluating
+            c["premise_await_start_unset"] += 1
+            if d["sel"] is None or d["sel"]["start"] is not None or not parked:
+                a["oracle_failures"].append(dict(oracle="premise:await-slice-has-start-unset-and-parks", real=_jsonable(d)))
+            # await_honest (b): every key left in `awaiting` is a target of this Await
+            c["premise_await_keys_in_targets"] += 1
+            stale = [k for k, _ in d["aw"] if k not in real_act]
+            exp = tuple(s["k"] for s in case["srcs"] if s["kind"] == "proc")
+            if (stale and self.fixed45) or real_act != exp:
+                a["oracle_failures"].append(dict(oracle="premise:await-leaves-only-its-targets", stale=stale,
+                                                 targets=list(real_act), written=list(exp)))
+        elif parked:
+            sel = d["sel"]
+            # park_honest, 1st clause: parked by a pass => every receive cursor at the end of the mailbox
+            c["premise_park_full_scan"] += 1
+            if sel["start"] is None or any(cu != len(d["mb"]) for cu in sel["cur"]) or sel["recv"] is not None:
+                a["oracle_failures"].append(dict(oracle="premise:parks-only-after-full-scan", real=_jsonable(d)))
+            # time_honest (for the parking slice): no timeout source due at the clock of the pass
+            c["premise_park_no_due_timeout"] += 1
+            if sel["start"] is not None:
+                due = [s["d"] for s in case["srcs"] if s["kind"] == "timeout" and timeout_ready(s["d"], sel["start"], now)]
+                if due:
+                    a["oracle_failures"].append(dict(oracle="premise:never-parks-with-a-due-timeout", due=due,
+                                                     start=sel["start"], now=now))
+        if val != "-" and self.fixed45:
+            # complete_select forgets every process source of the completed select
+            c["premise_completion_clears_sources"] += 1
+            if d["aw"]:
+                a["oracle_failures"].append(dict(oracle="premise:complete-select-clears-process-sources", awaiting=_jsonable(d["aw"])))
 
     def classify_arrival(self, st, prev, completed):
         if prev is None or completed:
@@ -845,6 +907,11 @@ class Runner:
                 bad.append("err")
             elif re_ is not None and re_ != me_ and not (case["local"] and me_[0] == "aw"):
                 bad.append("err")
+            if "act_at" in cp and not cp["completed"]:
+                self.counts["actions_compared"] += 1
+                mact = dumps[cp["act_at"]]["act"] if cp["act_at"] is not None and cp["act_at"] < len(dumps) else None
+                if mact != cp["real_act"]:
+                    bad.append("act(real %s, model %s)" % (cp["real_act"], mact))
             if cp["completed"] and md["val"] is None:
                 bad.append("val(model-not-completed)")
             if not cp["completed"] and md["val"] is not None:
